@@ -19,14 +19,14 @@ type c08 struct {
 	names []string
 
 	st struct {
-		Exec, Cuts, CutDocsAccepted, CutDocsRejected, MultiCutFiles, ReusedFiles int
-		FSStates, FSFaultRuns                                                    int
-		Fired                                                                    [simrt.NumFaultKinds]int
-		Toctou, DepthGE2                                                         int
-		Cycles, JsightInInclude                                                  int
-		Names, NamesRejected, NamesAccepted, StatsOutside, OpensInside           int
-		Distinct                                                                 map[uint64]bool
-		Samples                                                                  []any
+		Exec, Cuts, CutDocsAccepted, CutDocsRejected, MultiCutFiles, ReusedFiles, CorpusCutDocs int
+		FSStates, FSFaultRuns                                                                   int
+		Fired                                                                                   [simrt.NumFaultKinds]int
+		Toctou, DepthGE2                                                                        int
+		Cycles, JsightInInclude                                                                 int
+		Names, NamesRejected, NamesAccepted, StatsOutside, OpensInside                          int
+		Distinct                                                                                map[uint64]bool
+		Samples                                                                                 []any
 	}
 }
 
@@ -75,7 +75,7 @@ func (c *c08) Stats() map[string]any {
 	dist := distinctList(c.st.Distinct)
 	return map[string]any{
 		"executions": c.st.Exec, "cuts": c.st.Cuts, "cut_docs_accepted": c.st.CutDocsAccepted, "cut_docs_rejected": c.st.CutDocsRejected,
-		"multi_cut_files": c.st.MultiCutFiles, "fs_states": c.st.FSStates, "fs_fault_runs": c.st.FSFaultRuns, "faults_fired": fired,
+		"multi_cut_files": c.st.MultiCutFiles, "cut_docs_from_fixture_corpus": c.st.CorpusCutDocs, "fs_states": c.st.FSStates, "fs_fault_runs": c.st.FSFaultRuns, "faults_fired": fired,
 		"probe_toctou_split": c.st.Toctou, "probe_fault_at_depth_ge2": c.st.DepthGE2, "cycles": c.st.Cycles,
 		"jsight_in_include": c.st.JsightInInclude, "names": c.st.Names, "names_rejected": c.st.NamesRejected,
 		"names_accepted": c.st.NamesAccepted, "stats_outside_tree": c.st.StatsOutside, "opens_inside_tree": c.st.OpensInside,
@@ -115,6 +115,26 @@ func (c *c08) DumpCase(seed uint64, idx int) []Case {
 	switch {
 	case idx < c.nCut:
 		base.Kind = "cut"
+		if idx%4 == 3 {
+			// a hand-written fixture, cut at runs found with the library's own lexemes and context rules
+			cp := loadCorpus()
+			for tries := 0; tries < 30; tries++ {
+				root := cp.roots[r.n(len(cp.roots))]
+				text := string(cp.files[root])
+				runs, ok := corpusRuns(text)
+				if !ok {
+					continue
+				}
+				_, multi, n := cutText(text, runs, r, "/sim/proj/api", 4)
+				if n == 0 {
+					continue
+				}
+				base.Project = multi
+				base.Project.Name = strings.TrimPrefix(root, corpusPrefix+"/")
+				base.Extra = map[string]any{"single": text, "corpus": true}
+				return []Case{base}
+			}
+		}
 		cfg := randomCfg(r)
 		d := generateDoc(r, cfg)
 		_, multi, _ := cutProject(d, r, "/sim/proj/api", 4)
@@ -282,6 +302,9 @@ func (c *c08) checkCut(cs *Case, record bool) *Case {
 		c.st.Cuts += nfiles - 1
 		if nfiles > 2 {
 			c.st.MultiCutFiles++
+		}
+		if cb, _ := cs.Extra["corpus"].(bool); cb {
+			c.st.CorpusCutDocs++
 		}
 		if ref.Accepted {
 			c.st.CutDocsAccepted++
